@@ -29,6 +29,7 @@ pub fn profile(id: &str) -> Profile {
             p.ops = (2, 6);
         }
         "C04" => {
+            p.shape = Shape::AbandonedPoll;
             p.opw = OpW { sync: 16, desync: 6, futdesync: 5, trysync: 2, futsync: 4, after: 2, await_: 3, waitfor: 3, pollonce: 5, dropfut: 3, ..OpW::default() };
             p.stepw = StepW { nested_sync: 5, ..StepW::default() };
             p.callers = (2, 4);
@@ -302,6 +303,49 @@ pub fn suspend_case(p: &Profile) -> BoxedStrategy<Case> {
             ops.extend(seq);
             ops.extend(tail);
         }
+        Case { cfg, phases: vec![phase], sched }
+    })
+    .boxed()
+}
+
+/// C04: `f = future_desync/future_sync(o){await g}; poll f; drop f` leaves o's queue waiting for a poll that never comes;
+/// syncs on o (directly, and from inside a pool job of a lower object) must still return once the gate opens
+pub fn abandoned_poll_case(p: &Profile) -> BoxedStrategy<Case> {
+    let p = p.clone();
+    (cfg_strategy(&p), phase_strategy(&p), sched_strategy(p.sched_bytes), (any::<u8>(), any::<u8>(), any::<u8>(), any::<u8>(), 0u8..4, 0u8..3, any::<u8>())).prop_map(|(mut cfg, mut phase, sched, (c1, c2, p1, p2, kind, syncer, g))| {
+        cfg.pool = 1 + (cfg.pool % 2);
+        cfg.objects = cfg.objects.max(2);
+        cfg.gates = cfg.gates.max(1);
+        cfg.level = Level::Desync;
+        while phase.callers.len() < 2 {
+            phase.callers.push(vec![]);
+        }
+        let n = phase.callers.len();
+        let a = (c1 as usize * n) >> 8;
+        let mut b = (c2 as usize * n) >> 8;
+        if b == a {
+            b = (a + 1) % n;
+        }
+        // the abandoning caller
+        let body = vec![Step::AwaitGate { g }, Step::Touch];
+        let make = match kind {
+            0 | 1 => Op::FutDesync { o: 255, body, slot: 255, id: 0 },
+            2 => Op::FutSync { o: 255, body, slot: 255, id: 0 },
+            _ => Op::After { o: 255, g, body: vec![Step::Touch], slot: 255, id: 0 },
+        };
+        let seq = vec![make, Op::PollOnce { slot: 255 }, Op::DropFut { slot: 255 }];
+        let at = (p1 as usize * (phase.callers[a].len() + 1)) >> 8;
+        let tail = phase.callers[a].split_off(at);
+        phase.callers[a].extend(seq);
+        phase.callers[a].extend(tail);
+        // the syncing side
+        let s_op = match syncer {
+            0 => Op::Sync { o: 255, body: vec![Step::Touch], id: 0 },
+            1 => Op::Desync { o: 0, body: vec![Step::NestedSync { o: 255, body: vec![Step::Touch], id: 0 }], id: 0 },
+            _ => Op::FutDesync { o: 0, body: vec![Step::NestedSync { o: 255, body: vec![], id: 0 }, Step::Touch], slot: 254, id: 0 },
+        };
+        let at = (p2 as usize * (phase.callers[b].len() + 1)) >> 8;
+        phase.callers[b].insert(at, s_op);
         Case { cfg, phases: vec![phase], sched }
     })
     .boxed()
